@@ -579,7 +579,12 @@ public:
             x.key -= first_key;
         }
 
-        ef = decltype(ef)(tmp.begin(), std::prev(tmp.end()));
+        // The last entry is the sentinel. An entry before it with the same key (data ending at sentinel - 1) can never
+        // be the predecessor of a valid query and would make the universe of the Elias-Fano sequence overflow.
+        auto ef_end = std::prev(tmp.end());
+        if (ef_end != tmp.begin() && std::prev(ef_end)->key == ef_end->key)
+            --ef_end;
+        ef = decltype(ef)(tmp.begin(), ef_end);
     }
 
     /**
